@@ -58,7 +58,7 @@ func sliceConsults(w *core.World, sl *core.Slice, c consult, depth int) bool {
 			continue
 		}
 		g := call.Common().StaticCallee()
-		if g == nil || g.Blocks == nil || g.Pkg == nil || !strings.HasPrefix(g.Pkg.Pkg.Path(), core.Module) || g == sl.Fn {
+		if g == nil || g.Blocks == nil || g.Pkg == nil || !strings.HasPrefix(core.PkgPath(g), core.Module) || g == sl.Fn {
 			continue
 		}
 		if sliceConsults(w, core.ReturnSlice(g, -1), c, depth-1) {
